@@ -54,7 +54,7 @@ RULE = (
     "ComplexMCARotator, multi.CCA) x sample structure (one dim, two dims, MultiIndex, fit MultiIndex/new plain, fit plain/new MultiIndex) x "
     "coordinates (disjoint, overlapping, equal to training, repeated, training rows at own / at new coordinates, one all-NaN sample) x "
     "n_new = 5 (two dims: 3x2 block; quick: 3 resp. 2x2 outside the key classes), whose lattice contains as lower ideals the complete lattices of "
-    "its 1..4-sample (1x1..2x2) prefixes, x arguments (X and Y, X only, Y only) [x normalized, standardize+coslat: thorough]"
+    "its 1..4-sample (1x1..2x2) prefixes, x arguments (X and Y, X only, Y only) [x normalized (quick: one_dim, disjoint/train_subset only), standardize+coslat: thorough]"
 )
 LEVEL_TEXT = (
     "exhaustive exploration of the complete subset lattice of each new data set of the stated alphabet for each fitted model; "
@@ -164,7 +164,8 @@ def cases(tier, seed):
                                 continue
                             if secondary:
                                 # secondary dimensions: thorough only, base layouts, not Y-only, one at a time
-                                if quick or structure not in ("one_dim", "two_dims") or (fam == "cross" and args == "Y") or (normalized and prep != "default"):
+                                quick_ok = normalized and prep == "default" and structure == "one_dim" and coords in ("disjoint", "train_subset") and args in ("XY", "X")
+                                if (quick and not quick_ok) or structure not in ("one_dim", "two_dims") or (fam == "cross" and args == "Y") or (normalized and prep != "default"):
                                     continue
                                 if coords not in ("disjoint", "repeats", "train_subset"):
                                     continue
